@@ -6,6 +6,10 @@ HERE = os.path.dirname(os.path.dirname(os.path.abspath(__file__)))
 props = [json.loads(l) for l in open(os.path.join(HERE, "properties.jsonl"))]
 
 CLAIMS = {
+ "C17": dict(
+  technique="custom static checker: dominance/guard analysis of the pointer-table stores against the array extent constant, who-writes analysis of the table index, structural descending-loop rule for the restore, ordering rules on the plugin chain walkers, sibling rule over the name-dispatching chain methods, list-unlink idiom check",
+  text="Decides that no store into the pointer table can happen at index >= extent and that the full documented limit is usable, that the index is only advanced by the store and reset by constructor/post action, that the restore walks newest-to-oldest writing each saved value through its saved address and resets the index on every exit, that pre actions run head first and post actions tail first with disabled plugins skipping only themselves, that every chain method delegates along next_ and removal unlinks exactly the matched node. That post actions run for failed/throwing tests is C01.R1/R5.",
+  note="Trusted: FAIL never returns (C01.R3); clang AST/CFG."),
  "C03": dict(
   technique="custom static checker: predicate-abstraction skeletons of the 19 assert functions against oracle truth tables (paths forked on normalised condition atoms, failWith as terminator), range analysis of operand conversions, exhaustive IEEE-754 constant folding of doubles_equal over the class partition NaN/+-Inf/finite lattice x thresholds (2300 cells), 256-value folding of the character classifiers, forwarding table of the C entry points",
   text="Decides that every assert counts exactly one check on every path before any failure, fails exactly on the valuations of its own condition atoms that make the named predicate false, compares its parameters themselves, reaches string/memory comparison only with non-null operands and reports (expected, actual) in order; doubles_equal is folded exhaustively over the floating-point classes the property names; the C entry points forward with value-preserving widening and the longjmp terminator. Textbook semantics of the string/memory compare primitives on arbitrary bytes and the macro expansions in user code are not decided.",
